@@ -21,9 +21,11 @@ from scipy.optimize import fmin_cobyla
 
 
 def is_feasible(x, greater_than_zero, equal_zero, ineq_tol=1e-8, eq_tol=1e-8):
-    if any([g(x) < -ineq_tol for g in greater_than_zero]):
+    # Written so that a NaN constraint value (e.g. from a candidate with NaN or
+    # infinite components) counts as a violation.
+    if not all([g(x) >= -ineq_tol for g in greater_than_zero]):
         return False
-    if any([abs(g(x)) > eq_tol for g in equal_zero]):
+    if not all([abs(g(x)) <= eq_tol for g in equal_zero]):
         return False
     return True
 
